@@ -1,4 +1,5 @@
 import NumbatModel.Lemmas.VMOrder
+import NumbatModel.Lemmas.VMProg5
 /-!
 # C09 — compiled programs compute what their source means
 
@@ -18,6 +19,9 @@ semantics `S : Sem ν`.
   slots).
 * `conditional_bytes` — the exact bytes of a compiled conditional after both patches.
 * `struct_field_order`, `list_order`, `joinstring_order` — the short order facts.
+* `program_correct` — a whole input (statement list): compiled with `compileStmts` and run with `run`, the machine ends
+  with the globals, `last_result`, printed lines and result value of the reference semantics `evalInput`, or stops with
+  the same run-time error; the static invariant `InvS` is re-established (`inv_initial` is its base case).
 -/
 namespace NumbatModel.VM
 open NumbatModel.Core
@@ -143,6 +147,64 @@ theorem joinstring_order (S : Sem ν) (pvs : List (Value ν × Option (Option St
 
 end NumbatModel.VM
 
+namespace NumbatModel.VM
+open NumbatModel.Core
+variable {ν : Type}
+
+/-- **Program correctness (one input).** Let the interpreter state `I` agree with the static top-level state of the
+    reference semantics (`InvS`: same global names, function map, foreign names, struct table, and every function
+    of the table compiled into its chunk), let the statements of the input compile (`compileStmts I stmts = ok I'`,
+    the whole input is compiled before it runs) within the 16-bit size bounds. Then on the compiled program
+    `I'.prog`, started at the end of the old main code with the globals on the stack:
+    * if the reference semantics `evalInput` (all statements declared first, then executed in order, each
+      expression by `eval`) finishes in state `st'`, the machine runs to the end of the main chunk and halts there
+      with exactly the globals, the last result, the printed lines and the result value of `st'`;
+    * if it stops with a run-time error, the machine stops with the same error.
+    (`topMachine ip st` is the machine with one root frame at `ip` and `st`'s globals / last result / output /
+    result.) Includes: expression statements (`Return` at depth 1 sets `last_result`), `let` (the value stays on the
+    stack as the next global), function, struct, foreign-function and dimension definitions (no code at run time),
+    `print` and `assert`. -/
+theorem program_correct (S : Sem ν) (fuel : Nat) {I I' : Interp ν} {st : TopState ν} (stmts : List (Stmt ν))
+    (hinv : InvS I st.static) (hcomp : compileStmts I stmts = .ok I')
+    (hfit : ∀ x ∈ stmts, fitsStmt x) (hsize : Sizes I')
+    (hlen : st.gvals.length = st.static.gnames.length) :
+    let m0 := topMachine I.mainCode.length { st with out := [], result := none }
+    (∀ st', evalInput S fuel st stmts = .ok st' →
+      ∃ n, run S I'.prog n m0 = .done (topMachine I'.mainCode.length st') ∧
+        InvS I' st'.static ∧ st'.gvals.length = st'.static.gnames.length) ∧
+    (∀ err, evalInput S fuel st stmts = .err err → ∃ n out, run S I'.prog n m0 = .err err out) := by
+  intro m0
+  obtain ⟨hfin, _⟩ := compileStmts_inv stmts hinv hcomp hfit hsize
+  have hs := stmts_ok (S := S) hfin hsize fuel stmts (I := I) (I' := I')
+    (st := { st with out := [], result := none }) hinv hcomp hfit (Grow.refl _) (GrowS.refl _) hlen
+  refine ⟨?_, ?_⟩
+  · intro st' hv
+    obtain ⟨⟨n, hn⟩, hst', hlen'⟩ := hs.1 st' hv
+    exact ⟨n + 1, run_done_of_runN n hn (step_halt_top hfin st'), by rw [hst']; exact hfin, hlen'⟩
+  · intro err he
+    obtain ⟨n, hn⟩ := hs.2 err he
+    obtain ⟨out, ho⟩ := run_err_of_runN n hn
+    exact ⟨n, out, ho⟩
+
+/-- the static top-level state of a fresh interpreter (`procs` = the three procedures in the order of
+    `ffi_callables`) -/
+def TopStatic.initial (procs : List Name) : TopStatic ν :=
+  { gnames := [], funs := [], fnNames := [], ffi := procs, structs := [] }
+
+/-- **Base case of the session invariant**: a fresh interpreter agrees with the empty top-level state. Together with
+    `program_correct` (which returns `InvS I' st'.static` for the state after an input; the run-time fields `ip`,
+    `stack`, `last` that `interpret` then updates are not part of `InvS`) the invariant holds after every input. -/
+theorem inv_initial (procs : List Name) : InvS (Interp.new procs : Interp ν) (TopStatic.initial procs) where
+  locals := rfl
+  functions := rfl
+  ffi := rfl
+  structs := rfl
+  names := rfl
+  notMain := by intro c hc; simp [TopStatic.initial] at hc
+  fns := by intro i c hc; simp [tableOf, TopStatic.initial] at hc
+
+end NumbatModel.VM
+
 namespace NumbatModel.VM.Example
 open NumbatModel.Core NumbatModel.VM
 
@@ -260,5 +322,53 @@ example : FixedStr (ν := Nat) [(.str "a", none), (.num 1, some none), (.str "b"
   · exact ⟨"a", rfl⟩
   · cases hn
   · exact ⟨"b", rfl⟩
+
+/-! `program_correct` on the input `fn inc(x) = x + 1 ⏎ let a = inc(2) ⏎ print(a) ⏎ a * 2` from a fresh interpreter -/
+
+def procs : List Name := ["print", "assert", "assert_eq"]
+def input : List (Stmt Nat) :=
+  [.fn decl, .letv { names := ["a"], expr := .call "inc" [.num 2] }, .proc .print [.ident "a"],
+   .expr (.bin (.arith .mul) (.ident "a") (.num 2))]
+def st0 : TopState Nat :=
+  { static := TopStatic.initial procs, gvals := [], last := none, out := [], result := none }
+def interp1 : Interp Nat :=
+  { chunks := [⟨"<main>", [0, 1, 0, 28, 1, 0, 1, 0, 3, 0, 0, 30, 0, 0, 1, 0, 0, 0, 3, 0, 0, 0, 2, 0, 10, 37]⟩,
+               ⟨"inc", [3, 0, 0, 0, 0, 0, 8, 37]⟩],
+    constants := [.scalar 1, .scalar 2, .scalar 2], structInfos := [], ffiNames := procs, nCallArgs := 1,
+    locals0 := [["a"]], functions := [("inc", false)], ip := 0, stack := [], last := none }
+
+theorem input_compiles : compileStmts (Interp.new procs) input = .ok interp1 := rfl
+
+theorem input_sizes : Sizes interp1 where
+  main := by decide
+  locals := by decide
+  chunks := by decide
+  ffi := by decide
+  structs := by decide
+  fnCode := by
+    intro ch hch
+    simp [interp1] at hch
+    rcases hch with rfl | rfl <;> decide
+
+theorem input_fits : ∀ x ∈ input, fitsStmt x := by
+  intro x hx
+  simp [input] at hx
+  rcases hx with rfl | rfl | rfl | rfl
+  · exact ⟨rfl, by intro w hw; simp [decl] at hw, by decide, by decide⟩
+  · exact rfl
+  · exact ⟨rfl, by decide⟩
+  · exact rfl
+
+/-- the reference semantics of the input: `a = 3`, the line `3` printed, the value `6` -/
+theorem input_value : ∃ st', evalInput sem 5 st0 input = .ok st' ∧ st'.gvals = [.num 3] ∧ st'.out = ["3"] ∧
+    st'.result = some (.num 6) ∧ st'.last = some (.num 6) := ⟨_, rfl, rfl, rfl, rfl, rfl⟩
+
+/-- … and the compiled program does the same -/
+example : ∃ st' n, evalInput sem 5 st0 input = .ok st' ∧
+    run sem interp1.prog n (topMachine 0 st0) = .done (topMachine 26 st') := by
+  obtain ⟨st', h1, _⟩ := input_value
+  obtain ⟨n, hn, _⟩ := (program_correct sem 5 (I := Interp.new procs) (I' := interp1) (st := st0) input
+    (inv_initial procs) input_compiles input_fits input_sizes rfl).1 st' h1
+  exact ⟨st', n, h1, hn⟩
 
 end NumbatModel.VM.Example
